@@ -184,7 +184,7 @@ def strategy_(draw, tier):
     if draw(st.integers(0, 3)) == 0:
         n_ = draw(st.integers(2, 300))
         tail = [n_, draw(st.integers(1, n_ - 1))]
-    return {"tail_reserve": tail,
+    return {"tail_reserve": tail, "tail_dup": draw(st.sampled_from([None, None, 0, 0, 1])),
             "nsess": nsess, "ndds": draw(st.sampled_from([0, 0, 1, 4, 40])), "cache": draw(st.booleans()),
             "gattr": draw(st.booleans()),
             "sd_first": draw(st.booleans()), "objs": objs, "ann": ann,
@@ -289,7 +289,8 @@ def build_sessions(case, d, model):
                   (o["sess"] == s or any(w[1] == s for w in o.get("writes", [])) or
                    any(c[1] == s for c in o.get("chunks", [])))]
             anns = case["ann"] if s == case["nsess"] - 1 else []
-            if not hs and not anns and not first and not (case.get("tail_reserve") and s == case["nsess"] - 1):
+            if not hs and not anns and not first and not (case.get("tail_reserve") and s == case["nsess"] - 1) and \
+                    not (case.get("tail_dup") is not None and s == min(case["tail_dup"], case["nsess"] - 1)):
                 return
             p.call("i", "Hopen", "f.hdf", 3 if model["_created"] else 4, case["ndds"], bind="f")
             model["_created"] = True
@@ -459,6 +460,14 @@ def build_sessions(case, d, model):
                     if a[0] != "obj_label":
                         model.setdefault("_fileann", []).append((a[0], txt.encode()))
                 p.call("i", "ANend", V("an"))
+            td = case.get("tail_dup")
+            if td is not None and s == min(td, case["nsess"] - 1):
+                # the last thing this session adds is a descriptor without data of its own (an alias of a small
+                # element): with few descriptors per block the file then ends in a descriptor block, and the
+                # next session has to continue behind it
+                p.call("i", "Hputelement", V("f"), 8951, 1, b"anchor", 6)
+                p.call("i", "Hdupdd", V("f"), 8952, 1, 8951, 1)
+                model["_alias"] = True
             tr = case.get("tail_reserve")
             if tr and s == case["nsess"] - 1:
                 # the last thing stored by this session: an element whose space is reserved (Hstartwrite with a
@@ -726,6 +735,13 @@ def check(case, d, labels):
         ind_ann = R.annotations()
     except (h4read.StructureError, struct.error) as e:
         raise Fail("the independent reader cannot recover the logical objects: %s" % e, program=prog)
+    if model.get("_alias"):
+        a1, a2 = R.f.find(8951, 1), R.f.find(8952, 1)
+        if a1 is None or a2 is None or (a1.off, a1.len) != (a2.off, a2.len) or \
+                bytes(R.f.data[a1.off:a1.off + a1.len]) != b"anchor":
+            raise Fail("an aliased element (Hdupdd) is not stored as described",
+                       descriptors=[None if x is None else [x.off, x.len] for x in (a1, a2)], program=prog)
+        labels.add("alias_tail")
     if model.get("_tail"):
         n_, data_ = model["_tail"]
         tdd = R.f.find(8900, 1)
